@@ -344,6 +344,9 @@ fn tainted_ops(_prop: &str) -> HashSet<String> {
 
 fn locus(p: &Node) -> String {
   let ops = p.ops();
+  if ops.is_empty() {
+    return "direct-subscriber".to_string();
+  }
   if ops.len() == 1 {
     ops[0].name().to_string()
   } else {
@@ -441,7 +444,7 @@ pub fn eval_case(prop: &str, case: &Case, oracles: &[Oracle], st: &mut Stats, de
               let after = &evs[ti + 1];
               let class = if after.ev.is_terminal() { "second-terminal" } else { "item-after-terminal" };
               st.add_finding(
-                format!("{}/{}", if p.ops().is_empty() { "direct-subscriber".to_string() } else { locus(p) }, class),
+                format!("{}/{}", locus(p), class),
                 format!("recorder #{} saw {}", rec, show_evs(&real.all_of(rec))),
                 case.show(),
               );
@@ -452,7 +455,7 @@ pub fn eval_case(prop: &str, case: &Case, oracles: &[Oracle], st: &mut Stats, de
               for (step, live) in real.root_live.iter().enumerate() {
                 if step >= tstep && live.get(root).cloned().flatten() == Some(true) {
                   st.add_finding(
-                    format!("{}/is_subscribed-true-after-terminal", if p.ops().is_empty() { "direct-subscriber".to_string() } else { locus(p) }),
+                    format!("{}/is_subscribed-true-after-terminal", locus(p)),
                     format!("Subscription::is_subscribed() is true after step {} although the terminal arrived in step {}", step, tstep),
                     case.show(),
                   );
@@ -540,6 +543,21 @@ pub fn eval_case(prop: &str, case: &Case, oracles: &[Oracle], st: &mut Stats, de
                   case.show(),
                 );
                 break 'outer;
+              }
+            }
+          }
+        }
+        // a library Subject used as the source must not hold more observers than are needed
+        for step in 0..case.acts.len() {
+          for (si, k) in case.srcs.iter().enumerate() {
+            if *k == SrcKind::Subject {
+              let (have, want) = (real.held[step][si], r.held[step][si]);
+              if have > want {
+                st.add_finding(
+                  format!("{}/subject-still-holds-observer", locus(p)),
+                  format!("after step {} the Subject s{} holds {} observer(s), {} subscription(s) still need it | real: {} | reference: {}", step, si, have, want, real.show(), r.show()),
+                  case.show(),
+                );
               }
             }
           }
